@@ -695,6 +695,18 @@ class Model:
             # N.B. Any parameter expression elimination must be done first.
             symbols = self._symbols(self.constants)
             values = [v.value for v in self.constants]
+            if any(isinstance(v, ca.MX) and not v.is_constant() for v in values):
+                # Constants defined in terms of other constants: resolve
+                # those first, or their symbols would be left in the equations.
+                values = [v if isinstance(v, ca.MX) else ca.MX(ca.DM(v)) for v in values]
+                for _ in range(SUBSTITUTE_LOOP_LIMIT):
+                    new_values = ca.substitute(values, symbols, values)
+                    converged = ca.is_equal(
+                        ca.veccat(*values), ca.veccat(*new_values), CASADI_COMPARISON_DEPTH
+                    )
+                    values = new_values
+                    if converged:
+                        break
             if len(self.equations) > 0:
                 self.equations = ca.substitute(self.equations, symbols, values)
             if len(self.initial_equations) > 0:
